@@ -2,10 +2,26 @@ package lossy
 
 import (
 	"encoding/binary"
+	"errors"
 	"sync"
 
 	"github.com/deepteams/webp/internal/bitio"
 	"github.com/deepteams/webp/internal/verifhook"
+)
+
+// Size limits imposed by the VP8 frame header (RFC 6386 section 9.1 and 9.5): the length of
+// the first partition is a 19-bit field of the frame tag and every token partition but the
+// last is announced by a 24-bit size. These match libwebp's VP8_MAX_PARTITION0_SIZE and
+// VP8_MAX_PARTITION_SIZE, and like libwebp the encoder reports an error instead of emitting a
+// frame whose size fields have wrapped around.
+const (
+	maxPartition0Size = 1 << 19
+	maxPartitionSize  = 1 << 24
+)
+
+var (
+	errPartition0Overflow = errors.New("vp8: partition 0 is too big to fit 512 KiB")
+	errPartitionOverflow  = errors.New("vp8: token partition is too big to fit 16 MiB")
 )
 
 var boolWriterPool sync.Pool
@@ -32,6 +48,15 @@ func (enc *VP8Encoder) emitFrame() ([]byte, error) {
 
 	// Token partitions (1 to 8).
 	tokenParts := enc.emitTokenPartitions()
+
+	if len(part0) >= maxPartition0Size {
+		return nil, errPartition0Overflow
+	}
+	for i := 0; i < len(tokenParts)-1; i++ {
+		if len(tokenParts[i]) >= maxPartitionSize {
+			return nil, errPartitionOverflow
+		}
+	}
 
 	// Store size breakdown for debugging.
 	tokenSize := 0
